@@ -71,26 +71,49 @@ static const pcall CALLS[] = {
 };
 #define NCALLS (sizeof(CALLS) / sizeof(CALLS[0]))
 
-static void other_call(int which, size_t n) {
-    /* a previous library call whose locals share the stack region */
-    uint64_t *xs = malloc((n + 1) * 8);
-    uint8_t *buf = malloc(n * 20 + 256);
+/* Both the previous call and the call under test enter the library through
+ * this one trampoline, invoked from the same frame of run_call: their callee
+ * frames (and any uninitialised local in them) then occupy the same stack
+ * addresses, exactly as for an application that calls the same API twice. */
+static __attribute__((noinline)) void tramp(int codec, long param, uint8_t *dst,
+                                            const uint64_t *xs, const uint32_t *x32,
+                                            size_t n, enc_out *o) {
+    encode_into(codec, param, dst, xs, x32, n, o);
+}
+
+/* arguments of a previous call: the SAME entry point (codec, parameter) on
+ * different data of n values, or another codec */
+typedef struct prevargs {
+    int codec;
+    long param;
+    size_t n;
+    uint64_t *xs;
+    uint32_t *x32;
+    uint8_t *buf;
+} prevargs;
+static void prev_prepare(prevargs *p, int codec, long param, size_t n, uint64_t salt) {
+    p->codec = codec;
+    p->param = param;
+    p->xs = malloc((n + 4) * 8);
+    p->x32 = malloc((n + 4) * 4);
     for (size_t i = 0; i < n; i++) {
-        xs[i] = 777 + i * (uint64_t)(which + 1);
+        p->xs[i] = 1000000000000ULL * (salt % 3) + 1000 + ((i * 2654435761ULL + salt) % 60000) +
+                   (i % 31 == 30 ? salt << 28 : 0);
     }
-    if (which == 0) {
-        varintFORMeta m;
-        memset(&m, 0, sizeof(m));
-        varintFOREncode(buf, xs, n, &m);
-    } else if (which == 1) {
-        varintAdaptiveMeta m;
-        varintAdaptiveEncodeWith(buf, xs, n, VARINT_ADAPTIVE_FOR, &m);
-    } else {
-        varintPFORMeta m;
-        varintPFOREncode(buf, xs, (uint32_t)n, 95, &m);
+    adapted_n = n;
+    adapt(codec, param, n, p->xs);
+    p->n = adapted_n;
+    for (size_t i = 0; i < p->n; i++) {
+        p->x32[i] = (uint32_t)p->xs[i];
     }
-    free(xs);
-    free(buf);
+    int exact;
+    size_t bound = bound_of(codec, param, p->xs, p->x32, p->n, &exact);
+    p->buf = malloc(bound + 64 + p->n * 20);
+}
+static void prev_release(prevargs *p) {
+    free(p->xs);
+    free(p->x32);
+    free(p->buf);
 }
 
 static void run_call(size_t ci, const char *sched, const char *proc) {
@@ -137,19 +160,31 @@ static void run_call(size_t ci, const char *sched, const char *proc) {
         } else if (!strcmp(kind, "prev")) {
             /* guarded: a crash of the previous call is that call's problem,
              * it only serves to leave residue here */
+            prevargs pa[2];
+            int npa = 0;
             if (!strcmp(arg, "same_api_same_count")) {
-                (void)GUARDED(other_call(codec == C_ADAPTIVE ? 1 : codec == C_PFOR ? 2 : 0, n));
+                prev_prepare(&pa[npa++], codec, c->param, c->n, 7);
             } else if (!strcmp(arg, "same_api_other_count")) {
-                (void)GUARDED(other_call(codec == C_ADAPTIVE ? 1 : codec == C_PFOR ? 2 : 0, n + 3));
+                prev_prepare(&pa[npa++], codec, c->param, c->n + 3, 11);
             } else {
-                (void)GUARDED(other_call(codec == C_ADAPTIVE ? 0 : 1, n));
+                int oc = codec == C_FOR ? C_PFOR : C_FOR;
+                prev_prepare(&pa[npa++], oc, oc == C_PFOR ? 95 : 0, c->n, 13);
+                if (codec == C_ADAPTIVE) {
+                    prev_prepare(&pa[npa++], C_ADAPTIVE, c->param == 1 ? 2 : 1, c->n, 17);
+                }
+            }
+            for (int q = 0; q < npa; q++) {
+                enc_out po;
+                memset(&po, 0, sizeof(po));
+                (void)GUARDED(tramp(pa[q].codec, pa[q].param, pa[q].buf, pa[q].xs, pa[q].x32, pa[q].n, &po));
+                prev_release(&pa[q]);
             }
         }
     }
     enc_out o;
     memset(&o, 0, sizeof(o));
     meta_clear(&o);
-    int f = GUARDED(encode_into(codec, c->param, dst, xs, x32, n, &o));
+    int f = GUARDED(tramp(codec, c->param, dst, xs, x32, n, &o));
     /* decode what was produced (when it can be decoded by a count-taking reader) */
     uint64_t *ys = malloc((n + 1) * 8);
     memset(ys, 0, (n + 1) * 8);
